@@ -157,6 +157,7 @@ Inductive slabel :=
 | LHNew (k : key)                          (* refs += 1; OpaqueStreamRef::new *)
 | LHClone (k : key) (serial : N)           (* OpaqueStreamRef::clone of the handle (k, serial) *)
 | LHDrop (k : key) (serial : N) (closed : bool)   (* drop_stream_ref up to the wake-up; closed = stream.is_closed() *)
+| LHDropEnd                                (* end of drop_stream_ref: `if me.refs == 1 { wake }` (fix 6b1d165) *)
 | LSClone | LSDrop                         (* Streams::clone / Streams::drop *)
 | LQueryRefs                               (* has_streams_or_other_references *)
 | LMaybeClose                              (* maybe_close_connection_if_no_streams *)
@@ -239,6 +240,7 @@ Definition sstep (st : sstate) (l : slabel) : soutcome :=
            else SOk (set_refs (put st k (with_owed (with_ref r (r_ref r - 1)) true)) (refs st - 1) (nstreams st) (hdel (k, s) (handles st)))
                     (if (r_ref r - 1 =? 0) && closed then [OWakeConn] else [])
          end
+  | LHDropEnd => SOk st (if refs st =? 1 then [OWakeConn] else [])
   | LSClone =>
     if nstreams st =? 0 then SStuck 6
     else SOk (set_refs st (refs st + 1) (nstreams st + 1) (handles st)) []
